@@ -398,6 +398,7 @@ package dawn
 //@   ensures n_modload == old(n_modload) + 1
 //@   modifies heap, n_modload, announced
 //@ func (*dawn.Project).loadModule
+//@   uses (*label.Label).String variant function-of-fields
 //@   requires proj != nil && label != nil && proj.modules != nil
 //@   requires no-locks: !holds(proj.m) && (forall x: *dawn.module :: !holds(x.m))
 //@   callsite load: assert only-the-creator-loads: !old(allocated($0))
